@@ -870,7 +870,7 @@ func hostileInput(x *explore.X) {
 
 func TestC12(t *testing.T) {
 	s := explore.NewSuite(t, "C12", "fault_enumeration",
-		"(reply-cut) request kind(GET, POST, HEAD, GET via upstream proxy, GET inside MITM) x reply shape(Content-Length, chunked with trailer, connection-delimited) x EVERY cut offset k in [0,len(reply)] x {FIN, RST}; (terse-replies) 5 request kinds x 11 status lines without reason phrase, with and without the space after the code, with a 5000-octet reason x {Content-Length: 0, connection-delimited}: one complete response, the process lives; (dial) 8 request kinds x {refused, black-holed until the timeouts expire on the virtual clock}; (tls) MITM GET direct/via upstream x 6 TLS faults of the origin; (connect-reply) client CONNECT / MITM GET / MITM HEAD through an upstream proxy x 8 reply shapes + every cut offset of a 200 reply x {FIN, RST}; (hostile) every single-position mutation of a valid request x 9 classes, oversized heads, binary garbage, h2 preface with SETTINGS, partial TLS hellos on plain/TLS/MITM listeners; after every fault a probe request on a fresh connection must be served; the client's stream is classified by the independent parser: one complete well-formed error response with X-Forwarder-Error, or (after the head was relayed) a truncated message on a closed connection, never a complete-looking truncated one; worker crash = violation; non-trivial = classification made")
+		"(reply-cut) request kind(GET, POST, HEAD, GET via upstream proxy, GET inside MITM) x reply shape(Content-Length, chunked with trailer, connection-delimited) x EVERY cut offset k in [0,len(reply)] x {FIN, RST}; (terse-replies) 5 request kinds x 11 status lines without reason phrase, with and without the space after the code, with a 5000-octet reason x {Content-Length: 0, connection-delimited}: one complete response, the process lives; (dial) 8 request kinds x {refused, black-holed until the timeouts expire on the virtual clock}; (tls) MITM GET direct/via upstream x 6 TLS faults of the origin; (connect-reply) client CONNECT / MITM GET / MITM HEAD through an upstream proxy x 8 reply shapes + every cut offset of a 200 reply x {FIN, RST}; (hostile) every single-position mutation of a valid request x 9 classes, oversized heads, binary garbage, h2 preface with SETTINGS, partial TLS hellos on plain/TLS/MITM listeners; after every fault a probe request on a fresh connection must be served; the client's stream is classified by the independent parser: one complete well-formed error response with X-Forwarder-Error, or (after the head was relayed) a truncated message on a closed connection, never a complete-looking truncated one; worker crash = violation; non-trivial = classification made; (round 9) TLS faults: fatal alerts (handshake_failure, internal_error) in answer to the ClientHello and a TLS server without a common protocol version; (socks5-upstream) {GET, CONNECT, GET inside MITM} through a SOCKS5 upstream x 9 failures of the negotiation (no acceptable method, reply codes 1/4/5, closed or reset at every stage, an HTTP reply, a success reply cut short), every dial attempt meets the same fault; CONNECT replies: the upstream proxy falls silent (neither FIN nor RST) after every partial reply, the connection to it must be released")
 	s.Assume = []string{"simnet models FIN/RST and dial refusal/black-holing; net.Dialer.Timeout is emulated by simnet with the configured DialTimeout", "the statement is read as: the upstream proxy's own status line for a rejected CONNECT is relayed; for it only well-formedness and the status are required"}
 	run := func(f func(x *explore.X)) func(x *explore.X) {
 		return func(x *explore.X) { world.Run(t, x, func() { f(x) }) }
